@@ -420,6 +420,7 @@ func (prop c08) Execute(sc *sim.Scenario) *sim.Outcome {
 		where := fmt.Sprintf("step %d (c%d %s %s in=%v)", si, st.C, st.Op, st.Tag, st.In)
 		lh = lh.Int(st.C).Str(st.Op).Str(st.Tag)
 		sig = sig.Int(st.C).Str(st.Op).Str(st.Tag)
+		out.Probes["op/"+st.Op]++
 		for _, id := range st.In {
 			lh = lh.Int(id)
 			sig = sig.Int(id)
